@@ -549,6 +549,25 @@ def _kv(e, env):
     return _one(("?", A.norm(e)))
 
 
+_ELEM = ("elem-of-accumulating-loop",)
+
+
+def _accumulating_loop(loop, env):
+    """Names of the collections a `for` loop adds EVERY element of its iterable to, when that is all the loop does:
+    the body consists of `acc.add(x)` / `acc.append(x)` statements on the loop variable x only (no condition, no
+    jump, no else).  [] otherwise."""
+    if not isinstance(loop, ast.For) or not isinstance(loop.target, ast.Name) or loop.orelse or not loop.body:
+        return []
+    accs = []
+    for st in loop.body:
+        c = st.value if isinstance(st, ast.Expr) else None
+        if not (isinstance(c, ast.Call) and isinstance(c.func, ast.Attribute) and c.func.attr in ("add", "append") and isinstance(c.func.value, ast.Name)
+                and c.func.value.id in env and len(c.args) == 1 and not c.keywords and isinstance(c.args[0], ast.Name) and c.args[0].id == loop.target.id):
+            return []
+        accs.append(c.func.value.id)
+    return accs
+
+
 def _step(env, nd, value):
     """One simple statement (its value given separately, conditional expressions already decided) on the
     abstract key-collection environment."""
@@ -556,6 +575,14 @@ def _step(env, nd, value):
     if nd.kind == "for":
         for nm in _names(st.target):
             env[nm] = _one(("?", nm))
+        # `for k in S: acc.add(k)` (nothing else in the body, every element added): acc |= S, however many
+        # elements S has — the loop taken zero times adds the zero elements of an empty S
+        accs = _accumulating_loop(st, env)
+        if accs:
+            (src, _so) = _kv(st.iter, env)
+            for nm in accs:
+                env[nm] = (env[nm][0] | src, False)
+            env[st.target.id] = _one(_ELEM)
         return
     if nd.kind == "test" and st is not None:
         for x in A.walk_local(st):
@@ -596,6 +623,8 @@ def _step(env, nd, value):
             env[nm] = (cur, False)
         elif meth == "sort" and not c.args and not c.keywords:
             env[nm] = (cur, True)
+        elif meth in ("add", "append") and len(c.args) == 1 and not c.keywords and isinstance(c.args[0], ast.Name) and env.get(c.args[0].id) == _one(_ELEM):
+            pass  # accounted for at the head of the accumulating loop
         else:
             env[nm] = (cur | frozenset([("?", A.norm(st))]), False)
 
